@@ -385,6 +385,7 @@ func c06Batch(c *Check, tier string) int {
 		}
 		sample = map[string]interface{}{"module_set": sets[0].ID, "files": len(sets[0].Files), "main_head": txt, "expected_root_order": sets[0].Set.Expect[""]}
 	}
+	findings.PrintUnmet("C06", knownSeen)
 	cov := map[string]interface{}{
 		"evaluations":           evals,
 		"distinct_nontrivial":   len(prints),
